@@ -547,7 +547,7 @@ def main(prop):
     ck = Check(prop)
     ck.trusted = ["Lean 4.33.0 kernel", "axioms: propext, Classical.choice, Quot.sound (audited)", "correspondence harness + JSON driver",
                   "tokenisation of GFA text (strip/split) and of path strings (re.findall) modelled at token level: covered by correspondence only"]
-    ck.lean_build((["Gaftools.Props.C15Hist", "Gaftools.Props.C15Bicc", "Gaftools.Props.C15Bicc2", "Gaftools.Props.C15Extra"] if prop == "C15" else ["Gaftools.Props.%s" % prop, "Gaftools.Props.TextLayer"]) + ["Gaftools.Props.TieA", "Gaftools.Props.TieA5"] + (["Gaftools.Props.TieA9", "Gaftools.Props.TieA12", "Gaftools.Props.TieA20"] if prop == "C15" else ["Gaftools.Props.TieA17"] if prop == "C14" else []))
+    ck.lean_build((["Gaftools.Props.C15Hist", "Gaftools.Props.C15Bicc", "Gaftools.Props.C15Bicc2", "Gaftools.Props.C15Extra"] if prop == "C15" else ["Gaftools.Props.%s" % prop, "Gaftools.Props.TextLayer"]) + ["Gaftools.Props.TieA", "Gaftools.Props.TieA5"] + (["Gaftools.Props.TieA9", "Gaftools.Props.TieA12", "Gaftools.Props.TieA20", "Gaftools.Props.TieA25"] if prop == "C15" else ["Gaftools.Props.TieA17"] if prop == "C14" else []))
     ck.audit("%s.lean" % prop)
     tmp = tempfile.mkdtemp(prefix="gtv-graph-")
     try:
